@@ -84,6 +84,28 @@ CHECKS = {
                 note="Trusted: CPython GIL (a source line is the finest unit), the blocking model of timed waits (DESIGN 3.4), the state hash used for pruning (thread positions + shared state; over-fine is harmless)."),
 }
 
+# what was added to each check after the first build (see DESIGN.md 10.2 / 10.6); appended to the level text
+EXTRA = {
+    "C01": "Also: two connections sharing one module id, frames arriving in two TCP segments with another client's frame in between, close/reset of a subscriber paired with a publish in one round.",
+    "C02": "Every type is in flight (forwarded, unread) at the moment of the checked operation; in half of the configurations a second connection shares the client's module id.",
+    "C03": "Control requests are also sent from modules that already hold subscriptions, are subscribed to all, or are loggers.",
+    "C04": "One alias changes its target from program to program of one process; rebuilds into a used output directory after only imported files were edited.",
+    "C05": "Deviations include the logger being not writable (the manager's wait-then-write path); a client that publishes before CONNECT; addressed messages.",
+    "C06": "The same dynamic-id Client objects reconnect after losing their connection.",
+    "C07": "Also: every sequence of subscription requests (up to 2 quick / 4 thorough) before leaving, leave-return-leave chains, and the leaver dying right before every send call of a forward / acknowledgement / periodic-broadcast round (statement-level invariants, no reference).",
+    "C08": "Also: the same Client object on a second connection (after reset / end of stream / disconnect) in every initial subscription state, a type redefined through @message_def between reads, a clock that advances with every reading.",
+    "C09": "ctypes arrays of every other element type as carriers; thorough: every pair of bad elements, edge-valued neighbours, every bad value in every slice position.",
+    "C10": "Every value is also assigned over an object filled with the maximum profile; header profiles plain / timecode stamped, unstamped, zero, maximal / edge-valued base fields.",
+    "C11": "Also: message definitions as field types, the unsized native spellings, compiler options through the command line, one type name standing for structs of alignment 1/2/4/8 across the compilations of one process.",
+    "C12": "Also: id sets that touch / overlap / nest (conflict exactly when they intersect), near-miss names, conflicts inside bulk definitions.",
+    "C13": "Also: the struct behind a field type is edited while the message text stays, names containing the emitters' own prefixes; thorough: closure under two edits (bijection between definition texts and hashes).",
+    "C14": "Also: two frames of the publisher in one round and follow-up deliveries after a failed one.",
+    "C16": "The second run compiles in reverse order with relative root and output paths; closures whose root file carries compiler options; a family sharing every expression text but not the constant.",
+    "C17": "Scripts include a restart (second recording on the same collection); data sets with holes in the msg_types array; mutable class-level state of the data-logger modules is restored between executions.",
+    "C18": "Also: the upper half and the middle of the type table, ids outside the table, failed deliveries inside an interval, TIMING switched off, a MESSAGE_TRAFFIC listener that subscribes late, a report that never comes.",
+    "C19": "Also: connected loggers reset / closed in the same round as another module's control frame (both orders, both hash orders), two connections of one module id, sender / logger not writable in the serving round, descriptor reuse.",
+}
+
 ALL = [f"C{i:02d}" for i in range(1, 20)]
 NOT_YET = "check not built yet in this round (planned; see DESIGN.md section 4)"
 
@@ -101,7 +123,7 @@ def main():
             "evidence_file": f"/verif/evidence/{pid}.json",
             "replay_cmd_template": "./vcheck replay {path}",
             "engine": c["engine"],
-            "level_claimed": {"category": c["level"], "text": c["text"], "design_ref": c["ref"]},
+            "level_claimed": {"category": c["level"], "text": (c["text"] + " " + EXTRA.get(pid, "")).strip(), "design_ref": c["ref"]},
             "level_note": c["note"],
             "technique": c["technique"],
         })
